@@ -1,4 +1,5 @@
 import SplVerif.Driver.OpsLex
+import SplVerif.Driver.OpsDoc
 open Spl Spl.Wire Spl.Ops
 
 /-- One input line = `<op> <args...>` optionally followed by a TAB and the implementation's
@@ -11,7 +12,7 @@ def answer (line : String) : String :=
     | _ => ("", "")
   match caseLine.splitOn " " with
   | op :: args =>
-    match lexOps op args impl with
+    match (lexOps op args impl <|> docOps op args impl) with
     | some r => r
     | none => "bad-op"
   | [] => "bad-op"
